@@ -64,14 +64,6 @@ func loadRepo() (*ssaexec.Program, error) {
 	if err != nil {
 		return nil, err
 	}
-	ov := map[string][]byte{}
-	for v, r := range files {
-		b, err := os.ReadFile(r)
-		if err != nil {
-			return nil, err
-		}
-		ov[v] = b
-	}
 	pats := []string{".", "./internal/decoder", "./internal/encoder", "./internal/encoder/vm", "./internal/encoder/vm_indent",
 		"./internal/encoder/vm_color", "./internal/encoder/vm_color_indent", "./internal/runtime", "./internal/errors",
 		"./internal/verifrt", "./internal/verifref"}
@@ -79,7 +71,48 @@ func loadRepo() (*ssaexec.Program, error) {
 	if t := os.Getenv("VERIF_EXTRA_TAGS"); t != "" {
 		tags += "," + t
 	}
-	return ssaexec.Load(ssaexec.LoadConfig{Dir: repoDir, Patterns: pats, Overlay: ov, Tags: tags})
+	// A harness file that no longer compiles against the tree (a renamed
+	// identifier) must not take the other harnesses down with it: drop the
+	// offending overlay files and retry; the checks whose harness was dropped
+	// then report "harness not found" (inconclusive).
+	for attempt := 0; ; attempt++ {
+		ov := map[string][]byte{}
+		for v, r := range files {
+			b, err := os.ReadFile(r)
+			if err != nil {
+				return nil, err
+			}
+			ov[v] = b
+		}
+		prog, err := ssaexec.Load(ssaexec.LoadConfig{Dir: repoDir, Patterns: pats, Overlay: ov, Tags: tags})
+		if err == nil {
+			return prog, nil
+		}
+		if attempt >= 6 {
+			return nil, err
+		}
+		dropped := false
+		for v := range files {
+			base := filepath.Base(v)
+			if strings.HasPrefix(base, "zz_verif_") && strings.Contains(err.Error(), v) {
+				fmt.Fprintf(os.Stderr, "harness file %s does not compile against this tree and is dropped: %s\n", base, firstErrLine(err.Error(), v))
+				delete(files, v)
+				dropped = true
+			}
+		}
+		if !dropped {
+			return nil, err
+		}
+	}
+}
+
+func firstErrLine(msg, file string) string {
+	for _, l := range strings.Split(msg, "\n") {
+		if strings.Contains(l, file) {
+			return l
+		}
+	}
+	return ""
 }
 
 type Job struct {
